@@ -265,8 +265,13 @@ fn check_outside(ctx: &mut Ctx, n: i64, case: &Value) -> Vec<Disagreement> {
         if md.set_user_input(0, 3, 1, text.clone()).is_ok() {
             if let crate::fnum::Kind::Number(x) = crate::fnum::cell_kind(md, 0, 3, 1) {
                 let fmt = md.get_style_for_cell(0, 3, 1).map(|s| s.num_fmt).unwrap_or_default();
+                let what = if (MIN_SERIAL as f64..=MAX_SERIAL as f64).contains(&x) {
+                    "typed-iso stored=another-date"
+                } else {
+                    "typed-iso stored=out-of-range-serial"
+                };
                 mk(
-                    "typed-iso",
+                    what,
                     format!("typing `{}` stores the number {} with format `{}`", text, x, fmt),
                 );
             }
